@@ -27,7 +27,7 @@ ASSUMPTIONS = ["onnxruntime CPU (optimisations off) and onnx.reference implement
 FLOOR = {"quick": 100, "thorough": 1500}
 TIMEOUT = {"quick": 1500, "thorough": 5 * 3600}
 
-CFG = {"weird_names": True, "zero_dims": False, "value_info": False, "max_nodes": 8, "scan_outputs": False,
+CFG = {"weird_names": True, "zero_dims": True, "value_info": False, "max_nodes": 8, "scan_outputs": False,
        "disable": ("g_sequence", "g_function_call"), "overridable": False}
 OPTS = ["rename", "use_operators", "inline_const", "skip_initializers"]
 
@@ -92,10 +92,23 @@ def check(model, opts, feeds_list):
         inits = {}
         for i in model.graph.initializer:
             inits[i.name] = numpy_helper.to_array(i)
+        sub = [i for i in _all_inits(model.graph)][len(model.graph.initializer):]
+        if sub:
+            # initializers of subgraphs are lifted into make_model parameters as well: resolvable by (cleaned) name only
+            if opts.get("rename") or len({i.name for i in sub} | set(inits)) != len(sub) + len(inits):
+                inits = None if not any(np.prod(i.dims) > 4 for i in sub) else "unmappable"
+            else:
+                for i in sub:
+                    inits[i.name] = numpy_helper.to_array(i)
     try:
         compile(text, "<p2p>", "exec", dont_inherit=True)
     except SyntaxError as e:
         return [(f"text_not_python:{'skip_initializers' if opts.get('skip_initializers') else 'any'}:{type(e).__name__}", f"{e}\n{text[:1500]}")], info
+    if isinstance(inits, str):
+        info["outcomes"] = ["harness_cannot_call_make_model"]
+        return [], info
+    if inits is None and opts.get("skip_initializers"):
+        inits = {i.name: numpy_helper.to_array(i) for i in model.graph.initializer}
     try:
         if inits is not None:
             # the generated make_model takes the cleaned-up initializer names
@@ -121,6 +134,22 @@ def check(model, opts, feeds_list):
         verdicts.append(("signature:inputs", f"{bi} -> {ai}"))
     if [x[0] for x in bo] != [x[0] for x in ao] or len(bo) != len(ao):
         verdicts.append(("signature:outputs", f"{bo} -> {ao}"))
+    # declared static dimensions of graph inputs / outputs must come back as they were (symbolic / unknown ones may be renamed or dropped)
+    def static_dims(m):
+        ini = {i.name for i in m.graph.initializer}
+
+        def d(v):
+            tt = v.type.tensor_type
+            return [x.dim_value if x.HasField("dim_value") else None for x in tt.shape.dim] if tt.HasField("shape") else None
+
+        return [d(v) for v in m.graph.input if v.name not in ini], [d(v) for v in m.graph.output]
+
+    if not verdicts:
+        for what, b, a in zip(("inputs", "outputs"), static_dims(model), static_dims(new)):
+            for x, y in zip(b, a):
+                if x is not None and (y is None or len(x) != len(y) or any(p is not None and p != q for p, q in zip(x, y))):
+                    verdicts.append((f"signature:{what}-dims", f"{b} -> {a}"))
+                    break
     if verdicts:
         return verdicts, info
     # positional renaming of feeds
@@ -175,11 +204,20 @@ def _msg_class(msg):
 
 
 def _match_inits(text, inits):
-    """Map original initializer names to the parameter names of the generated make_model()."""
+    """Map the model's initializers onto the parameters of the generated make_model(): the exporter lifts only initializers with more than
+    4 elements.  By cleaned-up name where possible, else by position (main-graph initializers keep their order)."""
     import re
 
     m = re.search(r"def make_model\((.*?)\):", text, re.S)
     params = [p.strip().split(":")[0].strip() for p in m.group(1).split(",") if p.strip()] if m else []
+    by_clean = {}
+    for k, v in inits.items():
+        by_clean.setdefault(re.sub(r"\W", "_", k), []).append(v)
+    if all(p in by_clean and len(by_clean[p]) == 1 for p in params):
+        return {p: by_clean[p][0] for p in params}
+    big = [v for v in inits.values() if getattr(v, "size", 0) > 4]
+    if len(params) == len(big):
+        return dict(zip(params, big))
     vals = list(inits.values())
     if len(params) != len(vals):
         raise _HarnessLimit(f"make_model takes {params}, model has initializers {list(inits)}")
@@ -218,7 +256,10 @@ def run_shard(spec):
             for o in ([opts] if not all16 else [dict(zip(OPTS, bits)) for bits in __import__("itertools").product([False, True], repeat=4)]):
                 handle(gm.model, feeds_list, o, feats)
 
-        drive(st.tuples(opt_strategy, modelgen.models(CFG)), body, spec["n"] if not all16 else max(1, spec["n"] // 16), spec["seed"])
+        from vf.rulehosts.plant_noop import plant_if_scopes, plant_loop_scopes
+
+        cfg = dict(CFG, extra_generators=[plant_if_scopes, plant_loop_scopes, plant_loop_scopes], extra_weight=1)
+        drive(st.tuples(opt_strategy, modelgen.models(cfg)), body, spec["n"] if not all16 else max(1, spec["n"] // 16), spec["seed"])
     else:
         def body(case):
             opts, gp = case
@@ -244,7 +285,8 @@ def run_shard(spec):
             feeds_list = [dict(zip(names, gp.sample_inputs))] + [dict(zip(names, gp.inputs(s))) for s in (11, 23)]
             handle(model, feeds_list, opts, ["from_script"] + [f for f in gp.features if f in ("if", "for", "while", "subcall")])
 
-        drive(st.tuples(opt_strategy, scriptgen.programs()), body, spec["n"], spec["seed"])
+        # (a function with attribute parameters cannot be exported as a model: the main function has none; helpers keep theirs)
+        drive(st.tuples(opt_strategy, scriptgen.programs(main_attrs=False, multicall_one_in=3)), body, spec["n"], spec["seed"])
     return col.result()
 
 
